@@ -135,6 +135,40 @@ and ref_op_raw c : int * obj * (unit -> bool option) option =
       let g1 = gens_hint x and g2 = gens_hint y in
       let g = if not (has_point g1) then g2 else if not (has_point g2) then g1 else g1 @ g2 in
       id, upd (sys_of_gens n g), none
+  | "time_elapse_assign" ->
+      let y = get (nexti c) in
+      let g1 = gens_hint x and g2 = gens_hint y in
+      if not (has_point g1) || not (has_point g2) then id, upd false_sys, none
+      else id, upd (sys_of_gens n (te_gens g1 g2)), none
+  | "fold_space_dimensions" ->
+      let k = nexti c in let vs = List.init k (fun _ -> nexti c) in let dest = nexti c in
+      if dest >= n || List.exists (fun v -> v >= n || v = dest) vs then raise (Skip "ill-formed fold");
+      let g = gens_hint x in
+      let folded = fold_gens (List.map nat vs) (nat dest) g in
+      (* remove the folded dimensions *)
+      let cnt = ref 0 in
+      let pf = List.init n (fun i -> if List.mem i vs then None else (let j = !cnt in incr cnt; Some (nat j))) in
+      id, { x with dim = !cnt; s = map_dims pf (nat (n + 1)) (sys_of_gens n folded); gens = None }, none
+  | "poly_hull_assign_if_exact" | "upper_bound_assign_if_exact" ->
+      let y = get (nexti c) in
+      let g1 = gens_hint x and g2 = gens_hint y in
+      let g = if not (has_point g1) then g2 else if not (has_point g2) then g1 else g1 @ g2 in
+      let h = sys_of_gens n g in
+      (match covered_by_union (nat (n + List.length g + 1)) h x.s y.s with
+       | None -> raise (Skip "undecided exactness")
+       | Some true -> id, upd h, Some (fun () -> Some true)
+       | Some false -> id, x, Some (fun () -> Some false))
+  | "add_congruence" | "refine_with_congruence" | "add_congruences" | "refine_with_congruences" ->
+      let cgs = if op = "add_congruence" || op = "refine_with_congruence" then [ (let m = nextz c in let b = nextz c in let a = take_z c n in (m, b, a)) ]
+                else (let k = nexti c in List.init k (fun _ -> let m = nextz c in let b = nextz c in let a = take_z c n in (m, b, a))) in
+      let is_add = (op = "add_congruence" || op = "add_congruences") in
+      let s' = List.fold_left (fun s (m, b, a) ->
+        if m = Z0 then union_sys s (single { ccoefs = a; ccst = b; ckd = EQ })
+        else if List.for_all (fun z -> z = Z0) a then
+          (if Z.modulo b (Z.abs m) = Z0 then s else false_sys)
+        else if is_add then raise (Skip "proper congruence into a polyhedron (invalid_argument expected)")
+        else s) x.s cgs in
+      id, upd s', none
   | "concatenate_assign" -> let y = get (nexti c) in id, { x with s = concatenate (nat n) x.s y.s; dim = n + y.dim; gens = None }, none
   | "topological_closure_assign" -> id, upd (relax x.s), none
   | "affine_image" | "affine_preimage" ->
@@ -365,12 +399,38 @@ let () =
                    with Skip _ -> ());
                   if not !dead then resync id0 st
               | `Ok ->
-                  let id, o, _ = ref_op { t = rest } in
+                  let id, o, expret = ref_op { t = rest } in
+                  (match expret, !ret with
+                   | Some f, Some v -> (match f () with
+                       | Some b -> report ("op:" ^ name ^ "/ret") line (if b = (v = "1") then Ok else Fail (Printf.sprintf "returned %s, verified reference %b" v b))
+                       | None -> ())
+                   | _ -> ());
                   let vs = check_state o st in
                   List.iter (fun (k, v) -> report ("op:" ^ name ^ "/" ^ k) line v) vs;
                   if List.exists (fun (_, v) -> match v with Fail _ -> true | _ -> false) vs then dead := true
                   else resync id st)
-           with Skip why ->
+           with Skip why when name = "simplify_using_context_assign" && r = `Ok ->
+             (* relational specification: the result contains the receiver, has the same meet with the
+                context, and the flag says whether that meet is non-empty *)
+             bump ("op:" ^ name);
+             let x0 = get id0 in
+             let y = get (int_of_string (List.nth rest 2)) in
+             let rs = sys_of_cons st.scons in
+             let dn = nat (x0.dim + 1) in
+             report ("op:" ^ name ^ "/dd") line (of_ob true (timed (fun () -> dd_pair (nat st.sdim) st.scons st.sgens) None));
+             report ("op:" ^ name ^ "/OK") line (if st.sok = 1 then Ok else Fail "OK() returned false");
+             let meet_ne = timed (fun () -> nonempty_sys dn (union_sys x0.s y.s)) None in
+             (match !ret, meet_ne with
+              | Some v, Some b -> report ("op:" ^ name ^ "/ret") line (if b = (v = "1") then Ok else Fail (Printf.sprintf "returned %s but the meet with the context is %s" v (if b then "non-empty" else "empty")))
+              | _, None -> report ("op:" ^ name ^ "/ret") line Undecided
+              | _ -> ());
+             (match meet_ne with
+              | Some true ->
+                report ("op:" ^ name ^ "/value") line (of_ob true (timed (fun () -> incl_sys dn x0.s rs) None));
+                report ("op:" ^ name ^ "/value") line (of_ob true (timed (fun () -> equiv_sys dn (union_sys rs y.s) (union_sys x0.s y.s)) None))
+              | _ -> ());
+             resync id0 st
+           | Skip why ->
              bump ("unmodelled:" ^ name);
              (* not modelled: still check C01 on the result (both descriptions agree, OK()) and resynchronise *)
              report ("op:" ^ name ^ "/dd") line (of_ob true (timed (fun () -> dd_pair (nat st.sdim) st.scons st.sgens) None));
